@@ -9,10 +9,16 @@ H  histories   2-3 real helper processes, each owning a real gunicorn.pidfile.Pi
                compared with an independent symbolic reference model (below; imports nothing from
                gunicorn).
 M  matrix      single-instance create / rename / unlink / validate over odd file contents (no
-               newline, CRLF, blanks, undecodable bytes, 0, negative, overflowing numbers ...).
+               newline, CRLF, blanks, undecodable bytes, 0, negative, overflowing numbers ...); permission
+               cells: an unprivileged starter on the private (0600) pid file of another user's live master in a
+               directory it may write to - it cannot read whom the file names and must not replace it.
 K  crashes     create() / rename() / unlink() in a forked child whose os / tempfile / open are
                counting proxies; the child is killed (os._exit(137)) immediately before and
-               immediately after EVERY call, plus short-write variants; the parent inspects the target.
+               immediately after EVERY call, plus short-write variants; the parent inspects the target, and then
+               ANOTHER instance (a fresh process) runs create() on the path the dead one left behind: it must take
+               over (absent / names the dead process / previous stale content), must still refuse a file naming a
+               live process, and must come back within seconds (a later start that waits or gives up because of
+               anything the dead process left in the directory is reported, not waited for).
                "Restricted deployment" cells: the pid directory belongs to root (0755), the child drops
                to uid nobody and owns only the pre-existing pid file (nothing can be created next to it).
 R  races       the operations of two or three helper processes run CONCURRENTLY: every call Pidfile makes
@@ -61,7 +67,9 @@ RULE = ("H: case = (instance count, path layout, uid assignment, pid order, oper
         "model-no-ops before the last operation, plus a seeded sample of lengths 4-8; non-trivial = the judged last "
         "operation is create/rename/unlink or a validate on an existing file. M: case = (odd content, operation, uid). "
         "K: case = (operation, pre-state of the target, relative/absolute name, call index k, before/after/short "
-        "write) enumerated completely from a counting run, incl. the restricted-deployment cells; "
+        "write) enumerated completely from a counting run, incl. the restricted-deployment cells, each followed by a create() "
+        "of another instance on the state left behind; U: case = (starter uid, file owner, live/dead content, operation) on an "
+        "unreadable pid file; "
         "R: case = (scenario = operations of 2-3 instances + pre-state of the paths, schedule = which instance makes the "
         "next call), all schedules up to the preemption bound + seeded samples; L: case = (worker class, event list); "
         "distinct by case")
@@ -94,6 +102,16 @@ ASSUMPTIONS = [
     "after a crash the target may be absent, the complete previous content or the complete new content; a target that "
     "named another live process must still hold exactly that; leftover temporary files are counted "
     "(reach.info_leftover_tempfiles) and not judged",
+    "after every crash point a later create() by another process on the same path is run un-injected: it must return with "
+    "the file holding exactly its pid unless the file names a live process (then it must raise and leave the file); in the "
+    "restricted deployment PermissionError with the file untouched is accepted; a create() that has not returned after 3 s "
+    "is reported as blocked (takeover-blocked-after-crash); a crash-matrix shard stops after 6 witnesses",
+    "permission cells: pid file mode 0600 owned by root / www-data, starter nobody / www-data, directory 0777 without sticky "
+    "bit: naming a live process -> create() must raise and leave the very same file (content and inode), rename() onto it "
+    "must leave it alone; naming a dead process -> refusing and taking over are both accepted "
+    "(info.unreadable_stale_outcomes)",
+    "part R gives up on a schedule in which one instance repeats the very same call 13 times in a row (an implementation that "
+    "waits for a lock held by a parked rival): not judged, the run is then inconclusive unless another part reports",
     "crash points are the calls Pidfile makes through its module globals os.*, tempfile.* and open() (and the methods "
     "of the file object open() returned); os.getpid and os.path.* are passed through uncounted",
     "two instances that start on the same path with the same uid are interchangeable: only sequences that mention A "
@@ -879,6 +897,84 @@ def run_matrix(run, ctx, uid, only=None):
     ctx.setup(cfg)
 
 
+# ---- part M, permission cells: the pid file of ANOTHER USER's master -----------------------------
+
+def run_unreadable(run, ctx, only=None):
+    """The path holds the pid file of a master that runs under another account and keeps it private (mode 0600); the
+    directory is writable for everybody (no sticky bit), so the starter could rename its own file over it.  The starter
+    cannot read whom the file names.  When it names a live process the first clause applies as it stands: the start is
+    refused and the file is left alone (the same for rename() onto such a path; unlink() / validate() leave it alone).
+    When it names a dead process the starter cannot know: refusing (file untouched) and taking over (exactly the
+    starter's pid) are both accepted and counted."""
+    lab, e6 = ctx.lab, ctx.e6
+    live = os.getpid()                  # the shard process: alive, root-owned
+    P, Q = FNAME["P"], FNAME["Q"]
+    log = run.info.setdefault("unreadable_stale_outcomes", {})
+    for uid, owner in ((NOBODY, 0), (NOBODY, WWW), (WWW, 0)):
+        cfg = {"n": 1, "layout": "contend", "uids": [uid]}
+        for content in ("live", "stale"):
+            for op in ("create", "rename", "unlink", "validate"):
+                if only and [uid, owner, content, op] != list(only):
+                    continue
+                ctx.setup(cfg)
+                h = ctx.slot["A"]
+                mine = b"%d\n" % h.pid
+                data = b"%d\n" % (live if content == "live" else lab.fresh_dead_pid())
+                tgt = Q if op == "rename" else P
+                if op in ("rename", "unlink"):
+                    rep = h.call(op="create")
+                    if not rep["ok"]:
+                        run.inconclusive_because("permission cell: the helper could not create its own file: %s" % rep)
+                        continue
+                    if op == "unlink":
+                        os.unlink(lab.path(P))
+                lab.write(tgt, data)
+                os.chown(lab.path(tgt), owner, owner)
+                os.chmod(lab.path(tgt), 0o600)
+                ino = os.stat(lab.path(tgt)).st_ino
+                rep = h.call(op="rename", path=lab.path(Q)) if op == "rename" else h.call(op=op)
+                raised = not rep["ok"]
+                got = lab.read(tgt)
+                try:
+                    same_file = os.stat(lab.path(tgt)).st_ino == ino
+                except FileNotFoundError:
+                    same_file = False
+                case = {"part": "U", "cell": [uid, owner, content, op]}
+                run.case(("U", uid, owner, content, op))
+                run.count("unreadable_pidfile_cells")
+                what = ("%s by uid %d on a pid file it may not read (mode 0600, owner uid %d, directory 0777) naming %s process "
+                        "%s: %s, file now %r%s" % (op, uid, owner, "the live" if content == "live" else "a dead",
+                                                   data.strip().decode(), "raised %s: %s" % (rep.get("exc"), rep.get("msg")) if raised
+                                                   else "returned %r" % (rep.get("ret"),), got,
+                                                   "" if same_file else " (not the same file any more)"))
+                viol = []
+                untouched = got == data and same_file
+                if op in ("unlink", "validate"):
+                    if not untouched:
+                        viol.append(("%s-%s-foreign-file/unreadable-file" % (op, "removed" if got is None else "changed"), what))
+                elif content == "live":
+                    if not untouched:
+                        viol.append((("create-overwrote-live-owner" if op == "create" else "rename-clobbered-live-instance") +
+                                     "/unreadable-file", what))
+                    elif not raised and op == "create":
+                        viol.append(("create-accepted-live-owner/unreadable-file", what))
+                    else:
+                        run.count("unreadable_live_refused")
+                else:
+                    if raised and not untouched:
+                        viol.append((op + "-refused-but-changed-file/unreadable-file", what))
+                    elif not raised and got != mine:
+                        viol.append((op + "-wrong-content/unreadable-file", what))
+                    else:
+                        run.count("unreadable_stale_either")
+                        log["%s/uid%d/owner%d" % (op, uid, owner)] = "refused:%s" % rep.get("exc") if raised else "took-over"
+                if not viol and op in ("unlink", "validate"):
+                    run.count("unreadable_left_alone")
+                for mech, text in viol:
+                    run.violation(mech, text, case)
+    ctx.setup({"n": 1, "layout": "contend", "uids": [0]})
+
+
 # ---- part K: crash at every call ---------------------------------------------------------------
 
 CRASH_SCENARIOS = (
@@ -974,7 +1070,105 @@ def crash_case(run, e6, base, scn, k, mode, expect_call=None, count=True):
         run.count("crash_outcome_" + ("absent" if T is None else "previous" if T == pre else "new" if T == new else "other"))
         if restricted:
             run.count("crash_restricted_points")
+    if not viol:
+        viol += crash_followup(run, e6, wd, scn, T, me, call, where, count)
     return r, viol
+
+
+FOLLOW_TIMEOUT = 3.0
+
+
+def followup_create(e6, wd, relative, uid, timeout=None):
+    """Another instance (a fresh process, nothing injected) runs the real Pidfile(T).create(own pid) in the directory the
+    crashed one left behind.  -> dict(pid, outcome: returned | raised | blocked, exc, msg, seconds)"""
+    import select
+    rfd, wfd = os.pipe()
+    t0 = time.monotonic()
+    pid = os.fork()
+    if pid == 0:
+        out = {"outcome": "returned"}
+        try:
+            os.close(rfd)
+            e6._pdeathsig()
+            os.chdir(wd)
+            if uid:
+                os.setgroups([])
+                os.setgid(uid)
+                os.setuid(uid)
+            try:
+                e6.gp.Pidfile("T" if relative else os.path.join(wd, "T")).create(os.getpid())
+            except BaseException as ex:       # noqa: BLE001
+                out = {"outcome": "raised", "exc": type(ex).__name__, "msg": str(ex)[:200]}
+            os.write(wfd, json.dumps(out).encode())
+        finally:
+            os._exit(0)
+    os.close(wfd)
+    res = {"pid": pid, "outcome": "blocked", "exc": None, "msg": None}
+    ready, _, _ = select.select([rfd], [], [], FOLLOW_TIMEOUT if timeout is None else timeout)
+    if ready:
+        data = os.read(rfd, 65536)
+        try:
+            res.update(json.loads(data))
+        except ValueError:
+            res.update({"outcome": "raised", "exc": "HelperDied", "msg": "no report from the follower (%r)" % data[:60]})
+    else:
+        try:
+            os.kill(pid, 9)
+        except ProcessLookupError:
+            pass
+    os.close(rfd)
+    os.waitpid(pid, 0)
+    res["seconds"] = round(time.monotonic() - t0, 2)
+    return res
+
+
+def crash_followup(run, e6, wd, scn, T, crashed, call, where, count=True):
+    """`whatever instant the process dies`, the state it leaves is one the NEXT instance copes with: a later create() on the
+    same path by another process must take the file over (it is absent, or names the dead process, or holds what was there
+    before) - and must still refuse when the file names a process that is alive.  An operation that has not returned after
+    FOLLOW_TIMEOUT seconds is reported as blocked (the unchanged create() makes about ten system calls)."""
+    restricted = scn.get("deploy") == "restricted"
+    live_pid = os.getpid()
+    names_live = T == b"%d\n" % live_pid
+    f = followup_create(e6, wd, scn.get("relative"), e6.RESTRICTED_UID if restricted else 0)
+    try:
+        with open(os.path.join(wd, "T"), "rb") as fh:
+            T2 = fh.read()
+    except FileNotFoundError:
+        T2 = None
+    mine = b"%d\n" % f["pid"]
+    what = "%s; then another instance (pid %d) ran create() on the same path: %s%s after %.2f s, file now %r; directory: %s" % (
+        where, f["pid"], f["outcome"], " %s: %s" % (f["exc"], f["msg"]) if f["exc"] else "", f["seconds"], T2,
+        sorted(os.listdir(wd)))
+    if names_live:
+        if T2 != T:
+            return [("create-overwrote-live-owner/after-crash-at-" + call, what)]
+        if f["outcome"] == "returned":
+            return [("create-accepted-live-owner/after-crash-at-" + call, what)]
+        if f["outcome"] == "blocked":
+            return [("refusal-blocked-after-crash/" + call, what)]
+        if count:
+            run.count("crash_followup_refused_live_owner")
+        return []
+    if f["outcome"] == "raised" and restricted and f["exc"] == "PermissionError" and T2 == T:
+        if count:
+            run.count("crash_followup_restricted_refused_eperm")
+        return []
+    if f["outcome"] != "returned" or T2 != mine:
+        if not e6.pid_is_dead(crashed):
+            # the number of the crashed process has been handed out again: the file names a live process after all
+            run.info["transient_deviation"] = run.info.get("transient_deviation", 0) + 1
+            return []
+        if f["outcome"] == "blocked":
+            return [("takeover-blocked-after-crash/" + call, what)]
+        if f["outcome"] == "raised":
+            return [("takeover-refused-after-crash/" + call, what)]
+        return [("takeover-wrong-content-after-crash/" + call, what)]
+    if count:
+        run.count("crash_followup_takeovers")
+        if T is not None:
+            run.count("crash_followup_takeovers_of_stale_file")
+    return []
 
 
 def crash_modes(call):
@@ -999,6 +1193,8 @@ def run_crash_scenario(run, e6, base, scn):
         " ".join(calls)
     for k, call in enumerate(calls, 1):
         for mode in crash_modes(call):
+            if run.enough(6):
+                return          # (a tree on which every later start waits for a lock: the verdict is clear, do not queue up)
             r2, viol = crash_case(run, e6, base, scn, k, mode, expect_call=call)
             run.case(("K", scn["op"], scn["pre"], scn.get("relative"), scn.get("deploy"), k, mode, call))
             run.count("crash_points_enumerated")
@@ -1061,6 +1257,9 @@ def race_op(scn, X):
     if spec == "unlink":
         return "unlink", f, None
     return "validate", None, None
+
+
+SPIN_LIMIT = 12
 
 
 class PrefixChooser:
@@ -1177,6 +1376,7 @@ def exec_race(ctx, scn, chooser):
                 result[X] = ev
         current = None
         overlap = False
+        spin = {}
         i = 0
         while parked:
             options = ([current] if current in parked else []) + sorted(x for x in parked if x != current)
@@ -1192,6 +1392,15 @@ def exec_race(ctx, scn, chooser):
             call = parked[Y]
             ev = ctx.slot[Y].call(go=True)
             made[Y] += 1
+            # an operation that makes the very same call over and over is waiting for somebody else (a lock, a retry loop);
+            # a schedule that keeps it running never ends: given up, not judged
+            same = "at" in ev and (ev["at"], ev.get("args")) == (call["at"], call.get("args"))
+            spin[Y] = spin.get(Y, 0) + 1 if same else 0
+            if spin[Y] >= SPIN_LIMIT:
+                parked[Y] = ev
+                res["abort"] = "operation waits instead of finishing: %s.%s repeated %s(%s) %d times in a row" % (
+                    Y, ops[Y][0], call["at"], call.get("args"), spin[Y] + 1)
+                break
             if "at" in ev:
                 parked[Y] = ev
             else:
@@ -1485,8 +1694,12 @@ def shard(sh):
         elif sh["kind"] == "M":
             for uid in sh["uids"]:
                 run_matrix(run, ctx, uid)
+            if os.geteuid() == 0:
+                run_unreadable(run, ctx)
         else:
             for scn in CRASH_SCENARIOS[sh["sub"]::sh["of"]]:
+                if run.enough(6):
+                    break
                 run_crash_scenario(run, ctx.e6, ctx.lab.dir, scn)
     finally:
         ctx.close()
@@ -1557,6 +1770,8 @@ def main(tier, seed):
                 "matrix_refused_live", "matrix_took_over", "crash_points_enumerated", "short_write_crashes",
                 "crash_at_os.rename", "crash_at_os.write", "crash_outcome_previous", "crash_outcome_new",
                 "crash_outcome_absent", "crash_restricted_points",
+                "crash_followup_takeovers", "crash_followup_takeovers_of_stale_file", "crash_followup_refused_live_owner",
+                "unreadable_pidfile_cells", "unreadable_live_refused",
                 "race_schedules_run", "race_schedules_enumerated", "race_schedules_sampled", "race_steps_observed",
                 "race_preemptions", "race_schedules_with_overlap", "race_scenarios_enumerated_to_bound",
                 "race_create_returned", "race_create_refused", "race_rename_returned", "race_took_over_stale")
@@ -1599,6 +1814,8 @@ def replay(path):
                 run.violation(mech, text, c)
         elif c["part"] == "M":
             run_matrix(run, ctx, c["uid"], only=(c["content"], c["op"]))
+        elif c["part"] == "U":
+            run_unreadable(run, ctx, only=c["cell"])
         else:
             r, viol = crash_case(run, ctx.e6, ctx.lab.dir, c["scn"], c["k"], c["mode"], expect_call=c.get("call"))
             print("child exit %s calls=%s" % (r["exit"], r["calls"]))
